@@ -17,7 +17,7 @@ use blsful::*;
 use serde_json::json;
 use std::io::{BufRead, Write};
 
-pub const RULE: &str = "emit phase (both builds, same seed, same sharding): transcript lines {i, op, out_hex} for seeds -> SecretKey::from_hash, SecretKey::random / random_proof_challenge with a known-stream RNG, public_key, sign x 3 schemes, proof_of_possession, AggregateSignature / MultiSignature / MultiPublicKey accumulation, ProofCommitmentChallenge::from_hash, compute_y, hash_to_scalar, message_generator, seal_scalar with a fixed blinder, signcryption compute_w, the pairing value's byte encoding (what time-lock hashes), the tag constants, and the bytes / serde_bare / serde_json encodings of those deterministic values; plus randomized artefact sets (ciphertexts x lengths, proofs, share sets, with ground truth) from several worker processes per build. check phase: (a) the blst and the rust transcript files must be identical line by line; (b) every artefact produced by one build is decoded, re-encoded and judged against its ground truth by the OTHER build (signatures and PoPs must also be reproduced byte for byte by the consuming build). Distinct by transcript line / artefact bytes; evaluations = lines compared + artefacts consumed.";
+pub const RULE: &str = "emit phase (both builds, same seed, same sharding): transcript lines {i, op, out_hex} for seeds -> SecretKey::from_hash, SecretKey::random / random_proof_challenge with a known-stream RNG, public_key, sign x 3 schemes, proof_of_possession, AggregateSignature / MultiSignature / MultiPublicKey accumulation, ProofCommitmentChallenge::from_hash, compute_y, hash_to_scalar, message_generator, seal_scalar with a fixed blinder, signcryption compute_w, the pairing value's byte encoding (what time-lock hashes), the tag constants, the scalar importers (be / le / TryFrom / serde) on the encodings 0, 1, r-1, r, r+1, 2r, 2r+1, 2^255, 2^256-1, and the bytes / serde_bare / serde_json encodings of those deterministic values; plus randomized artefact sets (ciphertexts x lengths, proofs, share sets, with ground truth) from several worker processes per build. check phase: (a) the blst and the rust transcript files must be identical line by line; (b) every artefact produced by one build is decoded, re-encoded and judged against its ground truth by the OTHER build (signatures and PoPs must also be reproduced byte for byte by the consuming build). Distinct by transcript line / artefact bytes; evaluations = lines compared + artefacts consumed.";
 
 pub fn run(ctx: &mut Ctx) {
     match ctx.phase.as_str() {
@@ -96,6 +96,26 @@ fn lines_for<C: Suite>(ctx: &Ctx, i: u64, out: &mut Vec<(String, Vec<u8>)>) {
     push("sk_enum/bytes", Vec::from(&e));
     push("sk_enum/json", serde_json::to_vec(&e).unwrap_or_default());
     if i == 0 {
+        for (name, be) in gen::special_scalar_encodings() {
+            let mut le = be;
+            le.reverse();
+            let o = |k: Option<[u8; 32]>| k.map(|b| b.to_vec()).unwrap_or_else(|| b"None".to_vec());
+            push(&format!("import/{name}/SecretKey::from_be_bytes"), o(ct_some(SecretKey::<C>::from_be_bytes(&be)).map(|k| k.to_be_bytes())));
+            push(&format!("import/{name}/SecretKey::from_le_bytes"), o(ct_some(SecretKey::<C>::from_le_bytes(&le)).map(|k| k.to_be_bytes())));
+            push(&format!("import/{name}/SecretKey::try_from"), o(SecretKey::<C>::try_from(&be[..]).ok().map(|k| k.to_be_bytes())));
+            push(&format!("import/{name}/ProofCommitmentSecret::from_le_bytes"), o(ct_some(ProofCommitmentSecret::<C>::from_le_bytes(&le)).map(|k| k.to_be_bytes())));
+            push(&format!("import/{name}/ProofCommitmentChallenge::from_be_bytes"), o(ct_some(ProofCommitmentChallenge::<C>::from_be_bytes(&be)).map(|k| k.to_be_bytes())));
+            push(&format!("import/{name}/ProofCommitmentChallenge::from_le_bytes"), o(ct_some(ProofCommitmentChallenge::<C>::from_le_bytes(&le)).map(|k| k.to_be_bytes())));
+            let mut t = vec![u8::from(C::CURVE)];
+            t.extend_from_slice(&le);
+            let e = ct_some(SecretKeyEnum::from_le_bytes(&t)).map(|e| Vec::from(&e)).unwrap_or_else(|| b"None".to_vec());
+            push(&format!("import/{name}/SecretKeyEnum::from_le_bytes"), e);
+            // serde forms of the same 32 bytes
+            push(&format!("import/{name}/SecretKey::serde_bare(be)"), o(serde_bare::from_slice::<SecretKey<C>>(&be).ok().map(|k| k.to_be_bytes())));
+            push(&format!("import/{name}/SecretKey::serde_bare(le)"), o(serde_bare::from_slice::<SecretKey<C>>(&le).ok().map(|k| k.to_be_bytes())));
+            let js = format!("\"{}\"", hex::encode(be));
+            push(&format!("import/{name}/SecretKey::serde_json(be-hex)"), o(serde_json::from_str::<SecretKey<C>>(&js).ok().map(|k| k.to_be_bytes())));
+        }
         push("tags", [<C as BlsSignatureBasic>::DST, <C as BlsSignatureMessageAugmentation>::DST, <C as BlsSignaturePop>::SIG_DST, <C as BlsSignaturePop>::POP_DST, <C as BlsElGamal>::ENC_DST].concat());
         push("identity_pairing_bytes", <<C as Pairing>::PairingResult as Group>::identity().to_bytes().as_ref().to_vec());
     }
